@@ -6,10 +6,12 @@ mod c01;
 mod c02;
 mod c04;
 mod c05;
+mod c06;
 mod components;
 mod mutants;
 mod c29;
 mod cfg;
+#[cfg(feature = "ex")]
 mod examples_run;
 mod genair;
 
@@ -27,6 +29,7 @@ fn main() {
         "C02" => c02::run(&args),
         "C04" => c04::run(&args),
         "C05" => c05::run(&args),
+        "C06" => c06::run(&args),
         "C29" => c29::run(&args),
         p => mck::report::machinery(&format!("h_stark does not serve property {p:?}")),
     }
